@@ -14,6 +14,7 @@ PROPS = {
     "C07": {"suites": SEQ("C07", 1500, 60000), "design": "6/C07"},
     "C08": {"suites": SEQ("C08", 1500, 60000), "design": "6/C08"},
     "C11": {"suites": SEQ("C11", 1500, 60000), "design": "6/C11"},
+    "C19": {"suites": {"quick": [("seq", {"profile": "C19", "count": 1000})], "thorough": [("seq", {"profile": "C19", "count": 40000})]}, "design": "6/C19"},
 }
 
 RULE = ("seq: programs of 5-40 commands over 1-6 colliding keys generated from the protocol vocabulary (pools of keys, binary and decimal "
